@@ -181,6 +181,10 @@ func c20TieViews(c *Ctx, d *c20Doc, now time.Time) (known, sib, whole, past bool
 	if hi == 0 {
 		lo, hi = 700000, 700000
 	}
+	if hi > lo && c.R.Chance(1, 8) { // a window that leaves the latest day out: the guards fail on both sides
+		hi--
+		c.Count("views: window shrunk by a day")
+	}
 	nowPart := c20Part{D: now.Day(), M: int(now.Month()), Y: now.Year()}
 	nowKey, _ := new(big.Int).SetString(c20Key(nowPart.years()), 10)
 	sib, whole, past = true, true, true
